@@ -359,6 +359,21 @@ class Verdict:
         self.verdict_sites = set()
         self.lowering_sites = set()
 
+    def _per_key(self, eng, st, M, b, cl=None, arg=("param", 2)):
+        """The verdict treats every key of the map as a member and compares the allocation's strong count with the
+        count stored under that key.  If the trace registered a second, non-canonical key for an allocation (its own
+        Loopback entries), that comparison must be restricted to canonical keys."""
+        if ("map_multikey", M) not in st.flags:
+            return
+        guarded = False
+        if cl is not None:
+            elem = arg[1] if arg[0] == "ref" else arg
+            K = mk_field(mk_deref(mk_field(elem, "0", "")), "kind", LINK)
+            live = [(pcs, ret, vf) for pcs, ret, vf in cl["vpaths"] if not (is_const(ret) and ret[1] == "0")]
+            guarded = bool(live) and all((K, "0") in set(vf) or any(c[0] == "bin" and c[1] == "Eq" and c[2] == ("discr", K) and is_const(c[3], 0) and t for c, t in pcs) for pcs, ret, vf in live)
+        if not guarded:
+            eng.violate("GATE-6", "verdict-over-non-canonical-keys", "the trace registers an allocation's own Loopback entries under a second key, and the orphan test compares the allocation's strong count with the count under every key: a member with a recorded no-op self-adoption and two or more owners in the group is judged externally owned, the orphaned group is never collected", b, st)
+
     # ---- the verdict ----------------------------------------------------
     def on_tbl(self, eng, ev, st):
         # iterating the verdict's map after a positive verdict = group teardown has started
@@ -423,6 +438,7 @@ class Verdict:
             if f[0] == "anyres" and f[1] == M and f[2] != orphaned:
                 return False  # same predicate over the same unchanged map and counts cannot flip
         st = add(st, ("anyres", M, orphaned))
+        self._per_key(eng, st, M, b, cl)
         if orphaned:
             return add(st, ("verdict", M))
         return add(st, ("verdict_checked", M))
@@ -453,6 +469,7 @@ class Verdict:
             if cl["effects"] or len(cl["returns"]) != 1 or not (verdicts[0][0] == "ok" and verdicts[0][1] == "Gt"):
                 eng.violate("GATE-6", "verdict-predicate", "the orphan test (%s) searches for something other than `strong > traced count` (or its predicate has effects)" % cl["where"], b, st)
                 return add(st, ("verdict_checked", M))
+            self._per_key(eng, st, M, b, cl, arg)
             if v == "0":
                 return add(st, ("verdict", M), ("anyres", M, True))
             return add(st, ("verdict_checked", M), ("anyres", M, False))
@@ -471,6 +488,7 @@ class Verdict:
                 if started and not broken:
                     self.verdict_sites.add(b)
                     eng.obl("GATE-6", "verdict:loop", b)
+                    self._per_key(eng, st, M, b)
                     return add(st2, ("verdict", M), ("anyres", M, True))
                 return st2
         return None
@@ -1187,7 +1205,7 @@ class Trace:
                 eng.violations[key] = {"rule": "GATE-8", "key": key[1], "msg": "forward targets are registered by the trace's passes but no pass queues them: objects behind them are not traced",
                                        "where": eng.where(0), "entry": eng.name, "path": []}
         if self.filtered_pass and self.any_expansion:
-            missing = sorted(ALL_KINDS - self.reg_kinds)
+            missing = sorted(ALL_KINDS - {"2"} - self.reg_kinds)
             for k in missing:
                 key = ("GATE-7", "entry-kind-ignored:%s" % KIND_NAMES.get(k, k))
                 if key not in eng.violations:
@@ -1276,6 +1294,8 @@ class Trace:
                     continue    # a pass may skip registration (e.g. it only queues); kind coverage is checked over the whole run
                 lk = mk_deref(mk_field(f[1], "0", ""))
                 kind = st.variant(mk_field(lk, "kind", LINK))
+                if kind == "2":
+                    continue    # a Loopback entry names the expanded node itself and logs a no-op: it need not be registered
                 eng.violate("GATE-7", "entry-kind-ignored:%s" % kind_name(kind), "an entry of an expanded node's link table (kind %s) is not registered in the trace's result map, so the verdict cannot see that object" % KIND_NAMES.get(kind, "unknown"), f[2], st)
             if f[0] == "elem_reg" and _is_next_site(f[1], site):
                 E, kind = f[1], f[4]
